@@ -184,43 +184,29 @@ def r2_format(L, repo):
     if len(ps) != 5:
         raise AnalysisError("verify_cmd signature changed")
     _, RQ, CMD, ARGC, VA = ps
-    subst = deep_subst(vc)
-
-    def evv(st):
-        if isinstance(st, ast.Return):
-            return canon(st.value)
-        return None
-    W = Walker(evv, subst)
-    atoms, rows = W.table(vc.body)
-    A_V = "%s == %s[0]" % tuple(sorted([CMD, RQ + "[0]"])[:1] + [RQ]) if False else None
-    names = {}
-    for a in atoms:
-        if "[0]" in a and "==" in a:
-            names["verb"] = a
-        elif a == VA:
-            names["va"] = a
-        elif "==" in a and "len(" in a:
-            names["eq"] = a
-        elif "<" in a and "len(" in a:
-            names["lt"] = a
-    L.require("C05.R2", FC, "CTRLInterface.verify_cmd", "atoms: verb match, va flag, len == argc, len < argc",
-              4, len(names) if len(atoms) == 4 else ("atoms", atoms))
-    if len(names) == 4 and len(atoms) == 4:
-        L.require("C05.R2", FC, "CTRLInterface.verify_cmd", "argument count is len(request[1:])",
-                  sorted(["%s == len(%s[1:])" % (ARGC, RQ), "len(%s[1:]) < %s" % (RQ, ARGC)]),
-                  sorted([names["eq"], names["lt"]]))
-        for vals, evs in sorted(rows.items()):
-            a = dict(zip(atoms, vals))
-            if a[names["eq"]] and a[names["lt"]]:
-                continue      # infeasible
-            if not a[names["verb"]]:
-                want = False
-            elif a[names["va"]]:
-                want = not a[names["lt"]]
-            else:
-                want = a[names["eq"]]
-            L.require("C05.R2", FC, "CTRLInterface.verify_cmd", "verify_cmd verb=%d va=%d len_eq=%d len_lt=%d" % (
-                a[names["verb"]], a[names["va"]], a[names["eq"]], a[names["lt"]]), (str(want),), evs)
+    # comparison-only code over (verb equal?, number of arguments, argc, va): folded exhaustively
+    # over request lengths 1..8, argc 0..7, both verbs, both va values
+    mod = repo.mod("ctrl_if")
+    bad = []
+    n = 0
+    for verb_ok in (True, False):
+        for nargs in range(0, 8):
+            for argc in range(0, 8):
+                for va in (False, True):
+                    req = ["VERB" if verb_ok else "OTHER"] + ["1"] * nargs
+                    env = {RQ: req, CMD: "VERB", ARGC: argc, VA: va}
+                    try:
+                        r = Ev(repo, mod, env=env, self_cls=ci).run_block(vc.body)
+                    except (Unknown, Raised) as ex:
+                        raise AnalysisError("verify_cmd does not fold: %s" % ex)
+                    got = None if not isinstance(r, tuple) else r[1]
+                    want = verb_ok and (nargs >= argc if va else nargs == argc)
+                    n += 1
+                    if got is not want and got != want:
+                        bad.append({"verb_matches": verb_ok, "arguments": nargs, "argc": argc, "va": va, "returned": got})
+    L.ob("C05.R2", FC, "CTRLInterface.verify_cmd",
+         "verify_cmd() is True iff the verb matches and the argument count equals argc (at least argc when va) -- folded over %d cases" % n,
+         [], bad[:4], not bad)
 
 
 def ret_kind(v):
@@ -448,49 +434,51 @@ def r5_effects(L, repo):
             if isinstance(n, ast.If) and want in literals(n.test, True):
                 return n
         raise AnalysisError("parse_cmd: %s branch vanished" % verb)
-    # SETFORMAT
+    # SETFORMAT: the branch is comparison-only code over the requested version; fold it for every
+    # request in -3..18 with set_hdr_ver / pick_hdr_ver evaluated from their own source
     br = branch("SETFORMAT", 1)
-    subst = branch_subst(br.body)
-    VER = "int(%s[1])" % REQ
-
-    def ev(st):
-        if isinstance(st, ast.Return):
-            return ("ret", canon(st.value, subst))
-        return None
-    W = Walker(ev, subst)
-    atoms, rows = W.table(br.body)
-    A_LO, A_HI, A_SET = "%s < 0" % VER, "Msg.CHDR_VERSION_MAX < %s" % VER, "self.trx.data_if.set_hdr_ver(%s)" % VER
-    L.require("C05.R5", FT, fn, "SETFORMAT atoms (range test, set_hdr_ver result)", sorted([A_LO, A_HI, A_SET]), sorted(atoms))
-    if sorted(atoms) == sorted([A_LO, A_HI, A_SET]):
-        for vals, evs in sorted(rows.items()):
-            a = dict(zip(atoms, vals))
-            if a[A_LO] and a[A_HI]:
-                continue
-            if a[A_LO] or a[A_HI]:
-                want = (("ret", "-1"),)
-            elif a[A_SET]:
-                want = (("ret", VER),)
-            else:
-                want = (("ret", "self.trx.data_if.pick_hdr_ver(%s)" % VER),)
-            L.require("C05.R5", FT, fn, "SETFORMAT below_range=%d above_range=%d applied=%d" % (a[A_LO], a[A_HI], a[A_SET]),
-                      want, evs)
-        # the range test dominates the (side-effecting) set_hdr_ver call
-        for c in find_calls(pc, attr="set_hdr_ver"):
-            lits = guard_literals(cfg, cfg.node_of(c), {k: v for k, v in subst.items()})
-            need = {(A_LO, False), (A_HI, False)}
-            L.ob("C05.R5", FT, fn, "set_hdr_ver() is only attempted for a version inside 0..CHDR_VERSION_MAX",
-                 lit_fmt(need), lit_fmt(lits), need <= lits, c.lineno)
-    # set_hdr_ver / pick_hdr_ver folded over the declared 4-bit domain
     dci = repo.need_class("data_if", "DATAInterface")
-    L.unit(rel("data_if"))
     dmod = repo.mod("data_if")
-    known = fold(repo, repo.mod("data_msg"), ast.parse("Msg.KNOWN_VERSIONS", mode="eval").body)
-    vmax = fold(repo, repo.mod("data_msg"), ast.parse("Msg.CHDR_VERSION_MAX", mode="eval").body)
-    L.require("C05.R5", rel("data_msg"), "Msg", "CHDR_VERSION_MAX is the 4-bit maximum", 15, vmax)
+    known = list(fold(repo, repo.mod("data_msg"), ast.parse("Msg.KNOWN_VERSIONS", mode="eval").body))
     c1, setm = repo.find_method(dci, "set_hdr_ver")
     c2, pick = repo.find_method(dci, "pick_hdr_ver")
     if setm is None or pick is None:
         raise AnalysisError("set_hdr_ver/pick_hdr_ver vanished")
+    cmod = repo.mod("ctrl_if_trx")
+    cci = repo.need_class("ctrl_if_trx", "CTRLInterfaceTRX")
+    for v in range(-3, 19):
+        calls = []
+
+        def h_set(args, calls=calls):
+            calls.append(("set", args[0]))
+            return Ev(repo, dmod, self_cls=dci).call_func(setm, dmod, [("self", "<self>"), (params(setm)[1], args[0])], self_cls=dci)
+
+        def h_pick(args, calls=calls):
+            calls.append(("pick", args[0]))
+            return Ev(repo, dmod, self_cls=dci).call_func(pick, dmod, [("self", "<self>"), (params(pick)[1], args[0])], self_cls=dci)
+        e = Ev(repo, cmod, env={REQ: ["SETFORMAT", str(v)], "self.trx.data_if._hdr_ver": 0}, self_cls=cci)
+        e.hooks = {"self.trx.data_if.set_hdr_ver": h_set, "self.trx.data_if.pick_hdr_ver": h_pick}
+        try:
+            r = e.run_block(br.body)
+        except (Unknown, Raised) as ex:
+            raise AnalysisError("SETFORMAT branch does not fold for %d: %s" % (v, ex))
+        got = r[1] if isinstance(r, tuple) else None
+        if v < 0 or v > 15:
+            want = -1
+        elif v in known:
+            want = v
+        else:
+            lower = [k for k in known if k <= v]
+            want = max(lower) if lower else -1
+        applied = [a for k, a in calls if k == "set"]
+        L.require("C05.R5", FT, fn, "SETFORMAT %d answers the applied version / the highest supported lower one / -1 when out of range" % v,
+                  want, got, line=br.lineno)
+        L.ob("C05.R5", FT, fn, "SETFORMAT %d: set_hdr_ver() is attempted only for a version inside 0..15" % v,
+             [v] if 0 <= v <= 15 else [], applied, applied == ([v] if 0 <= v <= 15 else []), br.lineno)
+    # set_hdr_ver / pick_hdr_ver folded over the declared 4-bit domain
+    L.unit(rel("data_if"))
+    vmax = fold(repo, repo.mod("data_msg"), ast.parse("Msg.CHDR_VERSION_MAX", mode="eval").body)
+    L.require("C05.R5", rel("data_msg"), "Msg", "CHDR_VERSION_MAX is the 4-bit maximum", 15, vmax)
     for v in range(0, 16):
         e = Ev(repo, dmod, self_cls=dci)
         try:
@@ -511,6 +499,10 @@ def r5_effects(L, repo):
     L.require("C05.R5", rel("data_if"), "DATAInterface.set_hdr_ver", "applied version is stored",
               [params(setm)[1]], [canon(s.value) for s in st])
     # MEASURE
+    def ev(st):
+        if isinstance(st, ast.Return):
+            return ("ret", canon(st.value, subst))
+        return None
     br = branch("MEASURE", 1)
     subst = branch_subst(br.body)
     W = Walker(ev, subst)
